@@ -157,9 +157,12 @@ uint32_t cop_deserialize_value(const uint8_t *buf, uint32_t buf_size,
         break;
     }
     case TAG_VOID:
-    default:
         *out = val_void();
         break;
+    default:
+        /* Not a transferable type: an undecodable value, not a void result */
+        *out = val_void();
+        return 0;
     }
 
     return pos;
